@@ -36,7 +36,7 @@ pub fn case_from_words(w: &mut crate::words::Words) -> Case {
     Case { doc: gen::gdoc_from_words(w), claims: draw(&gen::gclaims(), w.next()), url: draw(&gen::gurl(), w.next()), bind: draw(&gen::bind(), w.next()), perm_seed: w.next(), flip: w.next() as u32 }
 }
 
-pub const RULE: &str = "generator: rule document (pools of 4 privilege / 3 role / 4 identity names with dangling and duplicate names, each section independently absent, paths and query keys/values with per-character case flips, mode and defaultAccess with case variants) x claims from the same pools (60% bound to one of the document's identities) x request URL (70% bound to one of the document's privileges: its path + suffix and a subset of its parameters; otherwise pool path + suffix, case flips, duplicate/valueless/empty/prefix-related query keys, %xx); the document goes through the agent's serde types and from_authorization_item, then is_allowed. non-trivial: mode != disabled, >= 2 privileges of which >= 1 matches the URL, >= 1 identity reachable through a role assignment, and the case lies outside the two under-specified classes (conflicting duplicate names, duplicate request query keys); distinct by hash of (document, claims, url).";
+pub const RULE: &str = "generator: rule document (pools of 4 privilege / 3 role / 4 identity names with dangling and duplicate names, each section independently absent, paths and query keys/values with per-character case flips, mode and defaultAccess with case variants) x claims from the same pools (60% bound to one of the document's identities; executable paths include one that is not valid UTF-8, and rules that state its lossy image U+FFFD, which is a different path) x request URL (70% bound to one of the document's privileges: its path + suffix and a subset of its parameters; otherwise pool path + suffix, case flips, duplicate/valueless/empty/prefix-related query keys, %xx); the document goes through the agent's serde types and from_authorization_item, then is_allowed. non-trivial: mode != disabled, >= 2 privileges of which >= 1 matches the URL, >= 1 identity reachable through a role assignment, and the case lies outside the two under-specified classes (conflicting duplicate names, duplicate request query keys); distinct by hash of (document, claims, url).";
 
 fn xorshift(s: &mut u64) -> u64 {
     let mut x = *s | 1;
@@ -131,6 +131,10 @@ pub fn eval(case0: &Case, stats: &mut Stats) -> Outcome {
     // the target as the agent's HTTP layer presents it
     let target = uri.path_and_query().map(|pq| pq.as_str().to_string()).unwrap_or_else(|| uri.path().to_string());
     let claims = agent::to_claims(&case.claims);
+    if case.claims.exe == gen::EXE_RAW {
+        let twin = case.doc.identities.as_ref().map(|is| is.iter().any(|i| i.exe.as_deref() == Some(gen::EXE_LOSSY))).unwrap_or(false);
+        stats.class(if twin { "caller:executable-path-not-utf8(a-rule-states-its-lossy-image)" } else { "caller:executable-path-not-utf8" });
+    }
     let computed = agent::to_computed(&case.doc);
     let got = agent::is_allowed(&computed, &uri, &claims);
     let adm = rbac::decide(&case.doc, &case.claims, &target);
